@@ -184,7 +184,7 @@ class LockModel:
     def holders_in_type(self, ty):
         return [h for h in self.holder_adts if self._names(h, ty)]
 
-    def classes_of_value(self, body, op, classes=None):
+    def classes_of_value(self, body, op, classes=None, _depth=0):
         """(class, mode) pairs a value may hold: from acquisition calls it derives from, or holder ADTs in its type"""
         classes = classes if classes is not None else self.holder_classes
         out = set()
@@ -196,6 +196,23 @@ class LockModel:
             if r.kind in ("call", "via") and r.body in self.facts.bodies:
                 for a in self.acq_at.get((r.body, r.bb), []):
                     out.add((a["cls"], a["mode"]))
+            if r.kind == "call" and str(r.what) in self.facts.bodies and _depth < 2 and self.facts.bodies[str(r.what)].crate == "nomt":
+                # a helper that hands out the guard it acquires (`fn try_write(self, lock) -> Option<Guard> { lock.try_write() }`)
+                hb_ = self.facts.bodies[str(r.what)]
+                if GUARD_TY.search(hb_.local_ty(0)):
+                    for (hid, hbb), acqs in self.acq_at.items():
+                        if hid != hb_.id:
+                            continue
+                        d_ = hb_.term(hbb).get("dest") or {}
+                        if (d_.get("l") == 0 and not d_.get("p")) or any(x.bb == hbb for x in trace(hb_, {"l": 0}, deep=True)):
+                            for a in acqs:
+                                out.add((a["cls"], a["mode"]))
+            if r.kind == "agg" and r.obj is not None and r.body in self.facts.bodies and _depth < 3:
+                # `Some(lock.write())` built in a helper: the guard is the payload
+                ab = self.facts.bodies[r.body]
+                for o in r.obj.get("ops", []):
+                    if o.get("k") in ("move", "copy"):
+                        out |= self.classes_of_value(ab, o, classes, _depth + 1)
             if r.kind == "call" and r.obj is not None:
                 # closure argument whose return value is the guard (bool::then(|| lock.write()))
                 cb = self.facts.bodies.get(r.body)
@@ -762,11 +779,19 @@ def l6(facts, rep, M):
         for s in body.stmts(b):
             if s["k"] == "assign" and s["rv"]["k"] == "agg" and s["rv"].get("name") == "nomt::Session":
                 fl = s["rv"]["fields"]
-                if "access_guard" in fl:
-                    for r in trace(body, s["rv"]["ops"][fl.index("access_guard")]):
-                        if r.kind in ("call", "via") and r.bb == gb:
-                            stored = True
-    rep.check(stored, "L6", short, "guard-stored-in-session", "the access read guard taken by begin_session is not stored in Session.access_guard: the session would not exclude writers for its lifetime", site=gt.get("ln"), detail="Session { access_guard, .. }")
+                if True:
+                    def holds_guard(op, depth=0):
+                        for r in trace(body, op):
+                            if r.kind in ("call", "via") and r.bb == gb:
+                                return True
+                            if r.kind == "agg" and r.obj is not None and depth < 3 and any(holds_guard(o, depth + 1) for o in r.obj.get("ops", [])):
+                                return True  # `Some(guard)` built by a (spliced) helper
+                        return False
+
+                    # whichever field of Session keeps it (today `access_guard`)
+                    if any(holds_guard(o) for o in s["rv"]["ops"]):
+                        stored = True
+    rep.check(stored, "L6", short, "guard-stored-in-session", "the access read guard taken by begin_session is not stored in the Session it returns: the session would not exclude writers for its lifetime", site=gt.get("ln"), detail="Session { access_guard, .. }")
     # before anything that starts a read transaction
     rt_fns = set()
     for fn in facts.bodies:
